@@ -476,8 +476,6 @@ end more
 /-! ### Pipfile.lock -/
 namespace Pipfile
 
-def keyNV (nv : NV) : Str := nv.name ++ '@' :: nv.version
-def pinnedKV (e : Str × Str) : Option (Str × NV) := (pinned e).map fun nv => (keyNV nv, nv)
 
 theorem pinned_form (name v : Str) :
     (pinned (name, v) = none ∧ (v.isEmpty || (!hasPrefix "==".toList v || decide (v.length < 3))) = true) ∨
@@ -564,5 +562,87 @@ theorem requires_eq (rs : List (Str × Str)) : ∀ m : KMap,
   | cons r rs ih => intro m; simp only [List.foldl_cons, List.map_cons, insertAll]; exact ih _
 
 end GoMod
+
+/-! ### `dedup`, `tabulate`: the executable right-hand sides of the C03 (b) theorems -/
+
+section Dedup
+variable {α : Type} [DecidableEq α]
+
+theorem mem_dedup (l : List α) (x : α) : x ∈ dedup l ↔ x ∈ l := by
+  induction l with
+  | nil => simp [dedup]
+  | cons a l ih =>
+    simp only [dedup]
+    by_cases h : a ∈ l
+    · simp only [h, if_true, ih, List.mem_cons]
+      constructor
+      · exact Or.inr
+      · rintro (rfl | h') <;> assumption
+    · simp only [h, if_false, List.mem_cons, ih]
+
+theorem nodup_dedup (l : List α) : (dedup l).Nodup := by
+  induction l with
+  | nil => simp [dedup]
+  | cons a l ih =>
+    simp only [dedup]
+    by_cases h : a ∈ l
+    · simpa [h] using ih
+    · simp only [h, if_false, List.nodup_cons]
+      exact ⟨fun hm => h ((mem_dedup l a).mp hm), ih⟩
+
+theorem perm_dedup_of_nodup (l m : List α) (hn : l.Nodup) (h : ∀ x, x ∈ l ↔ x ∈ m) : l.Perm (dedup m) :=
+  (List.perm_ext_iff_of_nodup hn (nodup_dedup m)).mpr fun x => by rw [h x, mem_dedup]
+end Dedup
+
+section Tabulate
+variable {κ ν : Type} [DecidableEq κ]
+
+theorem mem_tabulate (ks : List κ) (f : κ → Option ν) (k : κ) (x : ν) : (k, x) ∈ tabulate ks f ↔ k ∈ ks ∧ f k = some x := by
+  simp only [tabulate, List.mem_filterMap, mem_dedup]
+  constructor
+  · rintro ⟨k', hk, h⟩
+    cases hf : f k' with
+    | none => rw [hf] at h; simp at h
+    | some y =>
+      rw [hf] at h
+      simp only [Option.map_some, Option.some.injEq, Prod.mk.injEq] at h
+      obtain ⟨rfl, rfl⟩ := h
+      exact ⟨hk, hf⟩
+  · rintro ⟨hk, hf⟩
+    exact ⟨k, hk, by simp [hf]⟩
+
+theorem keys_filterMap_tab (f : κ → Option ν) : ∀ l : List κ, l.Nodup →
+    (keys (l.filterMap fun k => (f k).map fun x => (k, x))).Nodup ∧
+    ∀ k, k ∈ keys (l.filterMap fun k => (f k).map fun x => (k, x)) → k ∈ l := by
+  intro l
+  induction l with
+  | nil => intro _; simp [keys]
+  | cons a l ih =>
+    intro hn
+    obtain ⟨h1, h2⟩ := ih (List.nodup_cons.mp hn).2
+    cases hf : f a with
+    | none => simp only [List.filterMap_cons, hf, Option.map_none]; exact ⟨h1, fun k hk => by simp [h2 k hk]⟩
+    | some y =>
+      simp only [List.filterMap_cons, hf, Option.map_some, keys, List.map_cons, List.nodup_cons, List.mem_cons]
+      refine ⟨⟨fun hm => (List.nodup_cons.mp hn).1 (h2 a hm), h1⟩, ?_⟩
+      rintro k (rfl | hk)
+      · exact Or.inl rfl
+      · exact Or.inr (h2 k hk)
+
+theorem keys_tabulate_nodup (ks : List κ) (f : κ → Option ν) : (keys (tabulate ks f)).Nodup :=
+  (keys_filterMap_tab f (dedup ks) (nodup_dedup ks)).1
+
+theorem nodup_of_keys (m : List (κ × ν)) (h : (keys m).Nodup) : m.Nodup := by
+  induction m with
+  | nil => simp
+  | cons e m ih =>
+    simp only [keys, List.map_cons, List.nodup_cons] at h
+    exact List.nodup_cons.mpr ⟨fun hm => h.1 (List.mem_map.mpr ⟨e, hm, rfl⟩), ih h.2⟩
+
+/-- two key-unique maps with the same entries are permutations of each other -/
+theorem perm_of_keys_nodup [DecidableEq ν] (m m' : List (κ × ν)) (h1 : (keys m).Nodup) (h2 : (keys m').Nodup) (h : ∀ e, e ∈ m ↔ e ∈ m') :
+    m.Perm m' :=
+  (List.perm_ext_iff_of_nodup (nodup_of_keys m h1) (nodup_of_keys m' h2)).mpr h
+end Tabulate
 
 end Scalibr.Lockfiles
